@@ -171,6 +171,11 @@ func c12DumpThrift(td *thrift.TypeDescriptor) string {
 			}
 			seen[st] = true
 			fmt.Fprintf(&sb, "{%s bm=%x hm=%d ", st.Name(), []uint64(st.Requires()), len(st.HttpMappingFields()))
+			// the order in which Fields() lists them is observable too
+			sb.WriteString("order=")
+			for _, fd := range st.Fields() {
+				fmt.Fprintf(&sb, "%d,", fd.ID())
+			}
 			fs := append([]*thrift.FieldDescriptor{}, st.Fields()...)
 			sort.Slice(fs, func(i, j int) bool { return fs[i].ID() < fs[j].ID() })
 			for _, fd := range fs {
@@ -379,6 +384,16 @@ func (f *c12Fix) ops() []c12Op {
 			}
 			msg := err.Error()
 			return "exception:" + h.Sha([]byte(msg)), unsafe.Slice(unsafe.StringData(msg), len(msg))
+		}},
+		{"thrift.DescriptorToPathNode", func(d *c12Descs) (string, []byte) {
+			// builds a zero-valued tree from the shared descriptor (read-only use of the descriptor)
+			var pn generic.PathNode
+			o := &generic.Options{DescriptorToPathNodeMaxDepth: 3, DescriptorToPathNodeWriteDefualt: true, DescriptorToPathNodeWriteOptional: true, DescriptorToPathNodeArraySize: 1, DescriptorToPathNodeMapSize: 1}
+			if err := generic.DescriptorToPathNode(d.t, &pn, o); err != nil {
+				return "error:" + errCode(err), nil
+			}
+			out, err := pn.Marshal(o)
+			return resStr(out, err)
 		}},
 		{"thrift.Value.Interface", func(d *c12Descs) (string, []byte) {
 			v, err := generic.NewValue(d.t, f.tb).Interface(gopts())
